@@ -694,6 +694,10 @@ private:
 
         visitor.end_array(*this, ec);
         more_ = !cursor_mode_;
+        if (level() == mark_level_) // read_to stops at the end of the container it started in
+        {
+            more_ = false;
+        }
         state_stack_.pop_back();
     }
 
@@ -720,6 +724,10 @@ private:
         --nesting_depth_;
         visitor.end_object(*this, ec);
         more_ = !cursor_mode_;
+        if (level() == mark_level_)
+        {
+            more_ = false;
+        }
         state_stack_.pop_back();
     }
 
